@@ -67,12 +67,25 @@ def voronoi_topo(rng, n_sites=30, kind="random", margin=0.12, min_ridge=0.0):
             corners = c + np.array([[a, b], [-a, b], [-a, -b], [a, -b]]) @ rot.T
             pts = pts[np.hypot(*(pts - c).T) > 1.15 * math.hypot(a, b)]
             pts = np.vstack([pts, corners])
+    elif kind == "quad2":
+        # random sites plus a 2 x 3 block of sites (two rectangles sharing a side): two four-fold junctions joined by one ridge, with
+        # the ridges through each of them in line
+        pts = rng.random((n_sites, 2))
+        c = rng.uniform(0.35, 0.65, size=2)
+        a, b = rng.uniform(0.05, 0.09, size=2)
+        th = rng.uniform(0, math.pi) if rng.integers(3) else float(rng.integers(4)) * math.pi / 2
+        rot = np.array([[math.cos(th), -math.sin(th)], [math.sin(th), math.cos(th)]])
+        block = np.array([[a, b], [-a, b], [-a, -b], [a, -b], [3 * a, b], [3 * a, -b]])
+        centres = c + np.array([[0.0, 0.0], [2 * a, 0.0]]) @ rot.T
+        for cc in centres:
+            pts = pts[np.hypot(*(pts - cc).T) > 1.15 * math.hypot(a, b)]
+        pts = np.vstack([pts, c + block @ rot.T])
     else:
         raise ValueError(kind)
     vor = sps.Voronoi(pts)
     lo, hi = pts.min(0) - margin, pts.max(0) + margin
     rep = list(range(len(vor.vertices)))
-    if kind == "quad":
+    if kind in ("quad", "quad2"):
         for v in range(len(vor.vertices)):
             for u in range(v):
                 if abs(vor.vertices[v][0] - vor.vertices[u][0]) < 1e-7 and abs(vor.vertices[v][1] - vor.vertices[u][1]) < 1e-7:
